@@ -116,13 +116,13 @@ const CATALOGUE: &[Builtin] = &[
         name: "export",
         special: true,
         opts: &[o('p', "print")],
-        cases: &[case("export v1=a", &[('p', "")], &[]), case("export v1=a", &[('p', "")], &["v1", "PATH"]), case("", &[], &["v2=b c"]), case("v3=x", &[], &["v3"])],
+        cases: &[case("export v1=a", &[('p', "")], &[]), case("export v1=a", &[('p', "")], &["v1", "PATH"]), case("", &[], &["v2=b c"]), case("v3=x", &[], &["v3"]), case("", &[], &["+", "v4=1"]), case("", &[], &["-", "v4=1"]), case("typeset -- -=h +=p", &[('p', "")], &["-", "+"])],
     },
     Builtin {
         name: "readonly",
         special: true,
         opts: &[o('p', "print")],
-        cases: &[case("readonly v1=a", &[('p', "")], &[]), case("readonly v1=a", &[('p', "")], &["v1"]), case("", &[], &["v2=b"])],
+        cases: &[case("readonly v1=a", &[('p', "")], &[]), case("readonly v1=a", &[('p', "")], &["v1"]), case("", &[], &["v2=b"]), case("", &[], &["-"]), case("", &[], &["+", "-"]), case("readonly -- -=h", &[('p', "")], &["-"])],
     },
     Builtin {
         name: "typeset",
@@ -138,6 +138,11 @@ const CATALOGUE: &[Builtin] = &[
             case("f1() { probe a; }; f2() { :; }", &[('f', ""), ('p', "")], &["f1"]),
             case("f1() { probe a; }; f2() { :; }", &[('f', ""), ('r', "")], &["f2"]),
             case("f1() { probe a; }; typeset -fr f1; f2() { :; }", &[('f', ""), ('p', ""), ('r', "")], &[]),
+            // a lone `-` or `+` is an operand (here: a variable name)
+            case("typeset -- -=hyphen +=plus", &[('p', "")], &["-"]),
+            case("typeset -- -=hyphen +=plus", &[('p', "")], &["+", "-"]),
+            case("", &[('x', "")], &["-", "v=1"]),
+            case("", &[('g', "")], &["+", "v=1"]),
         ],
     },
     Builtin {
@@ -222,6 +227,8 @@ const CATALOGUE: &[Builtin] = &[
             case("x=1; x() { :; }", &[('v', "")], &["x"]),
             case("x=1; x() { :; }", &[('f', "")], &["x"]),
             case("x=1; y=2; x() { :; }", &[], &["x", "y"]),
+            case("x=1; typeset -- -=h", &[], &["-", "x"]),
+            case("x=1; typeset -- -=h", &[('v', "")], &["-"]),
         ],
     },
     Builtin {
@@ -239,6 +246,25 @@ const CATALOGUE: &[Builtin] = &[
             case("", &[('H', ""), ('a', "")], &[]),
             case("", &[('c', "")], &[]),
             case("", &[('s', "")], &[]),
+            // every resource: set through the short option, asked for through every spelling
+            case("ulimit -b 3", &[('b', "")], &[]),
+            case("ulimit -c 4", &[('c', "")], &[]),
+            case("ulimit -d 5", &[('d', "")], &[]),
+            case("ulimit -e 6", &[('e', "")], &[]),
+            case("ulimit -f 7", &[('f', "")], &[]),
+            case("ulimit -i 8", &[('i', "")], &[]),
+            case("ulimit -k 9", &[('k', "")], &[]),
+            case("ulimit -l 10", &[('l', "")], &[]),
+            case("ulimit -m 11", &[('m', "")], &[]),
+            case("ulimit -q 12", &[('q', "")], &[]),
+            case("ulimit -R 13", &[('R', "")], &[]),
+            case("ulimit -r 14", &[('r', "")], &[]),
+            case("ulimit -s 15", &[('s', "")], &[]),
+            case("ulimit -t 16", &[('t', "")], &[]),
+            case("ulimit -u 17", &[('u', "")], &[]),
+            case("ulimit -v 18", &[('v', "")], &[]),
+            case("ulimit -w 19", &[('w', "")], &[]),
+            case("ulimit -x 20", &[('x', "")], &[]),
         ],
     },
     Builtin {
@@ -257,13 +283,13 @@ const CATALOGUE: &[Builtin] = &[
         name: "alias",
         special: false,
         opts: &[],
-        cases: &[case("", &[], &["a1=x y", "a2=z"]), case("alias a1=x", &[], &["a1"]), case("alias a1=x", &[], &[])],
+        cases: &[case("", &[], &["a1=x y", "a2=z"]), case("alias a1=x", &[], &["a1"]), case("alias a1=x", &[], &[]), case("alias a1=x", &[], &["-", "a1"])],
     },
     Builtin {
         name: "type",
         special: false,
         opts: &[],
-        cases: &[case("", &[], &["cd", "cat"]), case("alias a1=x", &[], &["a1"])],
+        cases: &[case("", &[], &["cd", "cat"]), case("alias a1=x", &[], &["a1"]), case("", &[], &["-", "cd"])],
     },
     Builtin {
         name: "wait",
